@@ -1,9 +1,9 @@
 #!/venv/bin/python
 """Run the repository's suite (guard off, 8 xdist workers with private numba caches) and compare with /root/.vp/BASELINE.json stable_pass.
-usage: tools/run_baseline.py [repo_dir]"""
+usage: tools/run_baseline.py [repo_dir [junit_file]]"""
 import json, os, subprocess, sys, xml.etree.ElementTree as ET
 repo = sys.argv[1] if len(sys.argv) > 1 else "/repo"
-out = "/verif/work/suite.junit.xml"; os.makedirs("/verif/work", exist_ok=True)
+out = sys.argv[2] if len(sys.argv) > 2 else "/verif/work/suite.junit.xml"; os.makedirs("/verif/work", exist_ok=True)
 env = dict(os.environ); env["PYTHONPATH"] = "/verif/tools/pytest_plugins"; env.pop("GROUPBY_LIB_VERIF", None)
 p = subprocess.run(["/venv/bin/python", "-m", "pytest", "-q", "-p", "no:cacheprovider", "-p", "nbplug", "--timeout=900", "--continue-on-collection-errors", "-n", "8", f"--junitxml={out}", "-x" if False else "-q"],
                    cwd=repo, env=env, capture_output=True, text=True)
